@@ -1300,6 +1300,16 @@ VARIANTS += [
          edits=[dict(file='ipa-core/src/protocol/ipa_prf/shuffle/malicious.rs', find='    compute_possibly_empty_hash(iterator.map(|row_entry_iterator| {\n        row_entry_iterator\n            .zip(keys)\n            .fold(<Gf32Bit as SharedValue>::ZERO, |acc, (row_entry, key)| {\n                acc + row_entry * *key\n            })\n    }))\n}\n\n', replace='    compute_possibly_empty_hash(iterator.map(|row_entry_iterator| {\n        row_entry_iterator\n            .zip(keys)\n            .map(|(row_entry, key)| row_entry * *key)\n            .fold(<Gf32Bit as SharedValue>::ZERO, |acc, product| acc + product)\n    }))\n}\n\n')]),
 ]
 
+# round B4 (C02, C03, C04, C06)
+VARIANTS += [
+    dict(prop="C05", name="reveal-keys-push-one", benign=True,
+         edits=[dict(file='ipa-core/src/protocol/ipa_prf/shuffle/malicious.rs', find='    key_shares: &[AdditiveShare<Gf32Bit>],\n) -> Result<Vec<Gf32Bit>, Error> {\n    // reveal MAC keys\n    let keys = ctx\n        .parallel_join(key_shares.iter().enumerate().map(|(i, key)| async move {\n            // uses malicious_reveal directly since we malicious_shuffle always needs the malicious_revel\n            malicious_reveal(ctx.clone(), RecordId::from(i), None, key)\n                .await\n                .map(|v| Gf32Bit::from_array(&v.unwrap()))\n        }))\n        .await?\n        .into_iter()\n        // add a one, since last row element is tag which is not multiplied with a key\n        .chain(iter::once(Gf32Bit::ONE))\n        .collect::<Vec<_>>();\n\n    Ok(keys)\n}\n', replace='    key_shares: &[AdditiveShare<Gf32Bit>],\n) -> Result<Vec<Gf32Bit>, Error> {\n    // reveal MAC keys\n    let mut keys: Vec<Gf32Bit> = ctx\n        .parallel_join(\n            key_shares\n                .iter()\n                .enumerate()\n                .map(|(i, key_share)| async move {\n                    // uses malicious_reveal directly since we malicious_shuffle always needs the malicious_revel\n                    malicious_reveal(ctx.clone(), RecordId::from(i), None, key_share)\n                        .await\n                        .map(|revealed| {\n                            let array = revealed.expect("full reveal should always return a value");\n                            Gf32Bit::from_array(&array)\n                        })\n                }),\n        )\n        .await?;\n    // add a one, since last row element is tag which is not multiplied with a key\n    keys.push(Gf32Bit::ONE);\n\n    Ok(keys)\n}\n')]),
+    dict(prop="C03", name="large-segment-get-mut", benign=True,
+         edits=[dict(file='ipa-core/src/protocol/context/dzkp_validator.rs', find='        }\n\n        for i in 0..length_in_blocks {\n            if self.vec.len() > block_id + i {\n                MultiplicationInputsBlock::set(\n                    &mut self.vec[block_id + i],\n                    &segment.x_left.0[256 * i..256 * (i + 1)],\n                    &segment.x_right.0[256 * i..256 * (i + 1)],\n                    &segment.y_left.0[256 * i..256 * (i + 1)],\n', replace='        }\n\n        for i in 0..length_in_blocks {\n            // overwrite the block if it already exists, otherwise append a new one\n            if let Some(existing_block) = self.vec.get_mut(block_id + i) {\n                MultiplicationInputsBlock::set(\n                    existing_block,\n                    &segment.x_left.0[256 * i..256 * (i + 1)],\n                    &segment.x_right.0[256 * i..256 * (i + 1)],\n                    &segment.y_left.0[256 * i..256 * (i + 1)],\n')]),
+    dict(prop="C03", name="challenges-by-shared-closure", benign=True,
+         edits=[dict(file='ipa-core/src/protocol/ipa_prf/validation_protocol/validation.rs', find='        .await\n        .unwrap();\n\n        // From the perspective of the *prover_left*, _left_ is the other helper and _right_ is this verifier\n        let challenges_for_prover_left = other_hashes_prover_left\n            .hashes\n            .iter()\n            .zip(my_hashes_prover_left.hashes.iter())\n            .zip(once(exclude_large).chain(repeat(exclude_small)))\n            .map(|((hash_left, hash_right), exclude)| {\n                hash_to_field(hash_left, hash_right, exclude)\n            });\n\n        // From the perspective of the *prover_right*, _left_ is this helper and _right_ is the other verifier\n        let challenges_for_prover_right = my_hashes_prover_right\n            .hashes\n            .iter()\n            .zip(other_hashes_prover_right.hashes.iter())\n            .zip(once(exclude_large).chain(repeat(exclude_small)))\n            .map(|((hash_left, hash_right), exclude)| {\n                hash_to_field(hash_left, hash_right, exclude)\n            });\n\n        (\n            challenges_for_prover_left.collect(),\n            challenges_for_prover_right.collect(),\n        )\n    }\n\n', replace='        .await\n        .unwrap();\n\n        // one challenge per proof from the hashes of the verifiers left and right of a prover\n        let combine = |hashes_left: &[Hash], hashes_right: &[Hash]| -> Vec<Fp61BitPrime> {\n            hashes_left\n                .iter()\n                .zip(hashes_right.iter())\n                .zip(once(exclude_large).chain(repeat(exclude_small)))\n                .map(|((hash_left, hash_right), exclude)| {\n                    hash_to_field(hash_left, hash_right, exclude)\n                })\n                .collect()\n        };\n\n        (\n            // From the perspective of the *prover_left*, _left_ is the other helper and _right_ is this verifier\n            combine(&other_hashes_prover_left.hashes, &my_hashes_prover_left.hashes),\n            // From the perspective of the *prover_right*, _left_ is this helper and _right_ is the other verifier\n            combine(&my_hashes_prover_right.hashes, &other_hashes_prover_right.hashes),\n        )\n    }\n\n')]),
+]
+
 # rules shared between properties: the same edit must be reported under the other property too
 VARIANTS += [dict(v, prop="C05", name=v["name"] + "@C05") for v in VARIANTS
              if v["name"] in ("h1-shuffle-empty-shard-leaves", "sharded-shuffle-empty-shard-leaves", "reshard-closes-channels-on-input-error", "reshard-closes-before-matching-none")]
